@@ -157,7 +157,7 @@ def run(pid, tier, seed):
     t0 = time.time()
     selftest()
     if tier == "quick":
-        shards, n = 16, 150
+        shards, n = 16, 300
     else:
         shards, n = 16, 2500
     camp = core.Campaign()
